@@ -724,6 +724,7 @@ func (fn *rpcFunc) handleRpcCall(args []reflect.Value) (results []reflect.Value)
 			break
 		}
 
+		vhook("call.retry", nil, "id", req.ID, "attempt", attempt)
 		time.Sleep(b.next(attempt))
 	}
 
